@@ -50,6 +50,9 @@ EXTRA_C = [
                        "struct B mk(int a){ struct B b; b.x[0] = a; b.x[4] = a + 1; return b; }"),
     ("same_forward_value_twice", "int cb(int x); int reg(int (*a)(int), int (*b)(int), int c); int user(int v){ return reg(cb, cb, v) + reg(cb, cb, 2); } "
                                  "int reg(int (*a)(int), int (*b)(int), int c){ return a(c) + 2 * b(c + 1); } int cb(int x){ return x * 3; }"),
+    ("same_forward_procedure_twice", "int g; void cb(void); int reg(void (*on_open)(void), void (*on_close)(void)); int user(int v){ return reg(cb, cb) + v; } void cb(void){ g++; }"),
+    ("same_forward_procedure_twice_declared_first", "int user(void); void cb(void); int reg(void (*on_open)(void), void (*on_close)(void)); int user(void){ return reg(cb, cb); } void cb(void){ }"),
+    ("forward_local_value_twice", "int ext2(int a, int b); int f(int a){ int x; if (a) { x = a * 3; } else { x = 7; } return ext2(x, x) + ext2(a, a); }"),
     ("anonymous_members", "struct V { int tag; union { int i; float f; struct { short lo; short hi; }; }; struct { int p; int q; }; }; struct V gv; "
                           "int f(int a){ struct V *v = &gv; v->tag = 1; v->i = a; v->p = a + 1; v->q = v->lo + 2; return v->i + v->p * 3 + v->q * 5 + v->hi; }"),
     ("void_proc", "int g; void set(int v){ g = v; } static void twice(void){ set(g*2); } int f(int a){ set(a); twice(); return g; }"),
